@@ -15,7 +15,7 @@ import unitgen  # noqa: E402
 from unitgen import GenError, Unit, VERIF, REPO  # noqa: E402
 
 BUILD = os.path.join(VERIF, "build")
-UNDECIDED_PAT = re.compile(r"rlimit|Resource limit|timed? ?out|not supported|unsupported|internal error|panicked", re.I)
+UNDECIDED_PAT = re.compile(r"rlimit|Resource limit|timed? ?out|not supported|unsupported|internal error|panicked|must have a decreases clause|must have a `decreases`|cannot be used|is not allowed|expected one of", re.I)
 
 
 def sh(cmd, **kw):
